@@ -8,7 +8,7 @@ import pandapower as pp
 from scipy.sparse import csgraph
 from vf import coqrun as cq
 
-RULE = ("1-3 island 20 kV nets (3-6 buses per island, radial or with 1-2 chords, the ext_grid at the first or at a random "
+RULE = ("flavoured nets: plain / LV-side slack behind phase-shifting transformers with calculate_voltage_angles / several gens at one bus with binding q limits and enforce_q_lims / resistive shunts and wards; 1-3 island 20 kV nets (3-6 buses per island, radial or with 1-2 chords, the ext_grid at the first or at a random "
         "bus of its island, islands interleaved in the bus table or not) x 16 solver configurations; non-trivial = at least "
         "two configurations return and the net has a chord or several islands")
 ASSUMPTIONS = ["convergence of the iterative solvers is not proved; a configuration that raises LoadflowNotConverged is counted, not judged",
@@ -158,24 +158,120 @@ def rand_net(rng):
 
 
 def _res(net):
-    return (net.res_bus[["vm_pu", "va_degree"]].values.copy(), net.res_line[["p_from_mw", "q_from_mvar", "p_to_mw", "q_to_mvar"]].values.copy(),
-            net.res_ext_grid[["p_mw", "q_mvar"]].values.copy())
+    r = [net.res_bus[["vm_pu"]].values.copy(), net.res_line[["p_from_mw", "q_from_mvar", "p_to_mw", "q_to_mvar"]].values.copy(),
+         net.res_ext_grid[["p_mw", "q_mvar"]].values.copy()]
+    if len(net.gen):
+        r.append(net.res_gen[["p_mw", "q_mvar", "vm_pu"]].values.copy())
+    if len(net.trafo):
+        r.append(net.res_trafo[["p_hv_mw", "q_hv_mvar", "p_lv_mw", "q_lv_mvar"]].values.copy())
+    if len(net.shunt):
+        r.append(net.res_shunt[["p_mw", "q_mvar"]].values.copy())
+    if len(net.ward):
+        r.append(net.res_ward[["p_mw", "q_mvar"]].values.copy())
+    r.append(net.res_bus[["va_degree"]].values.copy())          # last: angles, compared modulo 360
+    return r
 
 
 def _close(a, b):
-    return all(x.shape == y.shape and bool(np.all(np.abs(x - y) <= TOL * np.maximum(1, np.abs(x)))) for x, y in zip(a, b))
+    for x, y in zip(a[:-1], b[:-1]):
+        if x.shape != y.shape or not bool(np.all(np.abs(x - y) <= TOL * np.maximum(1, np.abs(x)))):
+            return False
+    d = np.abs((a[-1] - b[-1] + 180.0) % 360.0 - 180.0)
+    return bool(np.all(d[~np.isnan(d)] <= 1e-4))
 
 
-def _one_net(ctx, rng, k, bibc_cases, net=None, meta=None):
+def shift_net(rng):
+    """single island, the ext_grid at the first bus row on the LOW voltage side of a phase-shifting transformer
+    (the sweep of bfsw traverses it from LV to HV), optionally a second transformer traversed from HV to LV"""
+    net = pp.create_empty_network()
+    lv = [pp.create_bus(net, 20.0) for _ in range(rng.randint(1, 3))]
+    hv = [pp.create_bus(net, 110.0) for _ in range(rng.randint(1, 3))]
+    pp.create_ext_grid(net, lv[0], vm_pu=rng.choice([1.0, 1.01]), va_degree=rng.choice([0.0, 0.0, 20.0]))
+    for grp, kv in ((lv, 20.0), (hv, 110.0)):
+        for i in range(1, len(grp)):
+            pp.create_line_from_parameters(net, grp[rng.randrange(0, i)], grp[i], length_km=rng.randint(2, 16) / 8,
+                                           r_ohm_per_km=rng.randint(8, 32) / 64, x_ohm_per_km=rng.randint(8, 24) / 64,
+                                           c_nf_per_km=rng.choice([0, 16]), max_i_ka=0.5)
+    sh = rng.choice([30.0, 150.0, 330.0, -30.0, 0.0, 180.0])
+    pp.create_transformer_from_parameters(net, rng.choice(hv), rng.choice(lv), sn_mva=25, vn_hv_kv=110.0, vn_lv_kv=20.0, vkr_percent=0.4,
+                                          vk_percent=10.0, pfe_kw=10.0, i0_percent=0.05, shift_degree=sh)
+    sh2 = None
+    if rng.random() < 0.5:
+        b2 = pp.create_bus(net, 20.0)
+        sh2 = rng.choice([30.0, 150.0, 0.0])
+        pp.create_transformer_from_parameters(net, rng.choice(hv), b2, sn_mva=25, vn_hv_kv=110.0, vn_lv_kv=20.0, vkr_percent=0.4,
+                                              vk_percent=10.0, pfe_kw=10.0, i0_percent=0.05, shift_degree=sh2)
+        pp.create_load(net, b2, p_mw=rng.randint(1, 16) / 16, q_mvar=rng.randint(0, 8) / 32)
+    for b in lv[1:] + hv:
+        if rng.random() < 0.8:
+            pp.create_load(net, b, p_mw=rng.randint(1, 16) / 16, q_mvar=rng.randint(0, 8) / 32)
+    return net, {"islands": 1, "eg_first": True, "chords": 0, "flavor": "shift", "shift": [sh, sh2]}, {"calculate_voltage_angles": True}
+
+
+def qlim_net(rng):
+    """several generators at one bus with narrow reactive limits that bind; enforce_q_lims=True everywhere"""
+    net, meta = rand_net(rng)
+    while meta["islands"] != 1:
+        net, meta = rand_net(rng)
+    eg = int(net.ext_grid.bus.values[0])
+    B = [int(b) for b in net.bus.index if int(b) != eg]
+    for _ in range(rng.choice([1, 1, 2])):
+        b = rng.choice([x for x in B if x not in set(net.gen.bus.values)] or B)
+        vm = rng.choice([1.03, 1.04, 0.97])
+        for _ in range(rng.choice([2, 2, 3])):
+            pp.create_gen(net, b, p_mw=rng.randint(1, 8) / 16, vm_pu=vm,
+                          min_q_mvar=-rng.randint(1, 4) / 32, max_q_mvar=rng.randint(1, 4) / 32)
+    meta = dict(meta, flavor="qlim")
+    return net, meta, {"enforce_q_lims": True}
+
+
+def shunt_net(rng):
+    """single ext_grid, no gens, purely resistive shunts / wards (GS != 0, BS == 0) or mixed ones"""
+    net, meta = rand_net(rng)
+    while meta["islands"] != 1:
+        net, meta = rand_net(rng)
+    B = [int(b) for b in net.bus.index]
+    resistive_only = rng.random() < 0.6
+    for _ in range(rng.randint(1, 3)):
+        b = rng.choice(B)
+        if rng.random() < 0.5:
+            pp.create_shunt(net, b, q_mvar=0.0 if resistive_only else rng.randint(-4, 4) / 16, p_mw=rng.randint(1, 8) / 16)
+        else:
+            pp.create_ward(net, b, ps_mw=rng.randint(0, 4) / 32, qs_mvar=rng.randint(0, 2) / 32, pz_mw=rng.randint(1, 8) / 16,
+                           qz_mvar=0.0 if resistive_only else rng.randint(-2, 2) / 16)
+    return net, dict(meta, flavor="shunt"), {}
+
+
+def flavoured_net(rng):
+    r = rng.random()
+    if r < 0.2:
+        return shift_net(rng)
+    if r < 0.4:
+        return qlim_net(rng)
+    if r < 0.6:
+        return shunt_net(rng)
+    net, meta = rand_net(rng)
+    return net, dict(meta, flavor="plain"), {}
+
+
+def _no_pq_bus(net):
+    """guard of the recorded finding C06-iwamoto-no-pq: every bus carries an in-service ext_grid or gen"""
+    pvb = set(int(b) for b in net.gen.bus.values[net.gen.in_service.values.astype(bool)])
+    pvb |= set(int(b) for b in net.ext_grid.bus.values[net.ext_grid.in_service.values.astype(bool)])
+    return all(int(b) in pvb for b in net.bus.index)
+
+
+def _one_net(ctx, rng, k, bibc_cases, net=None, meta=None, common=None):
     _install()
     if net is None:
-        net, meta = rand_net(rng)
+        net, meta, common = flavoured_net(rng)
+    common = common or {}
     js = pp.to_json(net)
-    case = {"net": js, "meta": meta}
+    case = {"net": js, "meta": meta, "common": common}
     import copy
     fresh = copy.deepcopy(net)
     try:
-        pp.runpp(net)
+        pp.runpp(net, **common)
         ref = _res(net)
     except Exception as e:
         ctx.count("default_nr_raised_" + type(e).__name__)
@@ -183,7 +279,11 @@ def _one_net(ctx, rng, k, bibc_cases, net=None, meta=None):
         return
     returned = 0
     cfgs = CONFIGS if ctx.tier != "quick" else [c for c in CONFIGS if not (c["algorithm"] == "gs" and "init" in c)]
+    if common.get("enforce_q_lims"):
+        # bfsw does not implement the q-limit loop; init="results" would start from the limited solution
+        cfgs = [c for c in cfgs if c["algorithm"] != "bfsw"]
     for cfg in cfgs:
+        cfg = dict(cfg, **common)
         n2 = copy.deepcopy(net if cfg.get("init") == "results" else fresh)
         _cap.clear()
         _cap["on"] = cfg["algorithm"] == "bfsw"
@@ -194,6 +294,7 @@ def _one_net(ctx, rng, k, bibc_cases, net=None, meta=None):
             err = e
         _cap["on"] = False
         name = "%s/%s" % (cfg["algorithm"], ",".join("%s=%s" % kv for kv in sorted(cfg.items()) if kv[0] != "algorithm"))
+        ctx.count("flavor_%s" % meta.get("flavor", "plain"))
         g_ok, isls = True, None
         if cfg["algorithm"] == "bfsw" and "args" in _cap:
             bus, branch, G = _cap["args"]
@@ -208,8 +309,10 @@ def _one_net(ctx, rng, k, bibc_cases, net=None, meta=None):
             ctx.count("returned_" + cfg["algorithm"])
             if not _close(ref, _res(n2)):
                 kind = "C06-bfsw-bibc-index" if (cfg["algorithm"] == "bfsw" and not g_ok) else "spec"
-                ctx.violation(kind, "%s returns results different from default Newton-Raphson (max |dvm| %.3g)" % (
-                    name, float(np.nanmax(np.abs(ref[0][:, 0] - _res(n2)[0][:, 0])))), dict(case, config=cfg))
+                r2 = _res(n2)
+                ctx.violation(kind, "%s returns results different from default Newton-Raphson (max |dvm| %.3g, max |dva| %.3g deg, max |d ext_grid| %.3g)" % (
+                    name, float(np.nanmax(np.abs(ref[0] - r2[0]))), float(np.nanmax(np.abs((ref[-1] - r2[-1] + 180.0) % 360.0 - 180.0))),
+                    float(np.nanmax(np.abs(ref[2] - r2[2])))), dict(case, config=cfg))
         else:
             en = type(err).__name__
             ctx.count("raised_%s_%s" % (cfg["algorithm"], en))
@@ -293,6 +396,23 @@ def _corr_dispatch(ctx):
             ctx.disagreement("_run_pf_algorithm dispatch: impl %r model %r" % (i, m), d)
 
 
+def _corr_roots(ctx, rng):
+    """numpy.roots returns as many roots as the degree left after stripping leading zeros (C06.Model.n_roots)"""
+    terms, impls, descs = [], [], []
+    for _ in range(60):
+        co = [rng.choice([0, 0, 1, -2, 3]) / rng.choice([1, 2, 4]) for _ in range(4)]
+        if rng.random() < 0.3:
+            co[0] = co[1] = 0.0
+        impls.append(int(len(np.roots(co))) if any(co) else 0)
+        terms.append("run_n_roots %s" % cq.lst([cq.q(x) for x in co]))
+        descs.append({"coefficients": co})
+    model = ctx.coq_eval("c06r", "C06.Model", terms, shard=100)
+    for d, i, m in zip(descs, impls, model):
+        ctx.corr_checked += 1
+        if i != m:
+            ctx.disagreement("number of roots returned by numpy.roots: impl %s model %s" % (i, m), d)
+
+
 def _corpus():
     out = []
     # radial feeder with the ext_grid at the last bus
@@ -315,6 +435,13 @@ def _corpus():
         pp.create_load(net, B[1], 0.2, 0.05)
         pp.create_load(net, B[2], 0.1, 0.02)
     out.append((net, {"islands": 2, "eg_first": True, "chords": 2}))
+    # no PQ bus: ext_grid + gen (repaired: iwamoto_nr must return and agree)
+    net = pp.create_empty_network()
+    b = [pp.create_bus(net, 20.0) for _ in range(2)]
+    pp.create_ext_grid(net, b[0])
+    pp.create_line_from_parameters(net, b[0], b[1], 1.0, 0.25, 0.125, 0.0, 0.5)
+    pp.create_gen(net, b[1], p_mw=0.25, vm_pu=1.04)
+    out.append((net, {"islands": 1, "eg_first": True, "chords": 0, "flavor": "no-pq"}))
     return out
 
 
@@ -324,15 +451,17 @@ def run(ctx):
     for net, meta in _corpus():
         _one_net(ctx, rng, 99, bibc_cases, net=net, meta=meta)
         ctx.count("corpus")
-    for k in range(ctx.n(30, 300)):
+    for k in range(ctx.n(40, 400)):
         _one_net(ctx, rng, k, bibc_cases)
     _corr_bibc(ctx, bibc_cases)
     _corr_dispatch(ctx)
+    _corr_roots(ctx, rng)
 
 
 def replay(ctx, rec):
     case = rec["case"]
     net = pp.from_json_string(case["net"])
     bibc_cases = []
-    _one_net(ctx, ctx.rng, 0, bibc_cases, net=net, meta=case.get("meta", {"islands": 1, "eg_first": True, "chords": 0}))
+    _one_net(ctx, ctx.rng, 0, bibc_cases, net=net, meta=case.get("meta", {"islands": 1, "eg_first": True, "chords": 0}),
+             common=case.get("common"))
     _corr_bibc(ctx, bibc_cases)
